@@ -341,7 +341,7 @@ def gen_world(rng, subject):
     # swarm: which perturbation kinds are enabled at all in this world
     if rng.chance(0.6):
         w["dask"] = True
-        w["pool"] = rng.pick([1, 2, 2, 3, 4, 4, 8, 16])
+        w["pool"] = rng.pick([1, 2, 2, 3, 4, 4, 5, 7, 8, 16])
         w["fail_fast"] = rng.chance(0.5)
         kind = rng.pick(["default", "walk", "walk", "pct"])
         w["schedule"] = {"kind": kind, "seed": rng.randrange(2**31), "p": rng.pick([0.1, 0.3, 0.6, 0.9]), "changes": rng.randrange(1, 4)}
@@ -368,10 +368,11 @@ def gen_world(rng, subject):
 SEEDS = (0, 1, 2, 7, 123, 2**31 - 1, 2**31 + 1, 2**63, 2**64 + 5)
 
 
-def gen_subject(rng):
+def gen_subject(rng, tier="quick"):
     sim = rng.weighted(SIMS)
     opts = {"allow_no_terminal": False, "postselect": rng.chance(0.3), "correlated_dyne_p": 0.3}
-    sub = gen.finalise(gen.gen_subject(rng.randrange(2**62), sim, shots=rng.randrange(1, 17), **opts))
+    max_shots = 16 if tier == "quick" else 40  # batching / remainder logic only shows beyond a few shots per worker
+    sub = gen.finalise(gen.gen_subject(rng.randrange(2**62), sim, shots=rng.randrange(1, max_shots + 1), **opts))
     sub["config"]["seed_sequence"] = rng.pick(SEEDS) if rng.chance(0.4) else rng.randrange(1, 10**9)
     return sub
 
@@ -684,7 +685,7 @@ def run_index(seed, idx, tier):
     if idx % 4 == 3:
         emit(gen_partition(rng, tier))
         return out
-    subject = gen_subject(rng)
+    subject = gen_subject(rng, tier)
     n_worlds = 3 if tier == "quick" else 5
     for j in range(n_worlds):
         rec = emit({"check": "c11", "kind": "world", "subject": subject, "world": gen_world(rng, subject)})
